@@ -254,7 +254,7 @@ def c16(run):
 def c07(run):
     run.scen("MC_MapFault", {"Seed": vlib.SEED % 300, "NRand": 2000 if run.thorough else 400}, small_heap=True, max_crashes=200)
     # a saved game yields the same fields as a map holding the same embedded portion (specification: MapFile!SavedGame)
-    run.scen("MC_Map", {"Tier": '"%s"' % run.tier, "Seed": 1, "NRand": 0}, own=by_prefix("save_equiv", "scenario"), name="MC_Map (saved game = map)")
+    run.scen("MC_Map", {"Tier": '"%s"' % run.tier, "Seed": vlib.SEED % 300, "NRand": 800 if run.thorough else 160}, own=by_prefix("save_equiv", "scenario"), name="MC_Map (saved game = map)")
 
 
 def IMG_RAND(run):
